@@ -19,7 +19,7 @@ one() {
   out=$(/verif/bin/govc check --property $prop --repo $wt --out /tmp/seedreg_out_$name 2>&1 | grep -E "VIOLATION|KNOWN|obligations,|panic|error")
   rm -rf /tmp/seedreg_out_$name
   git -C /repo worktree remove --force $wt
-  n=$(echo "$out" | grep -c VIOLATION)
+  n=$(echo "$out" | grep VIOLATION | grep -vc "/none.json")
   if [ $n -gt 0 ]; then verdict=DETECTED; else verdict=MISSED; fi
   echo "[$name] $prop $verdict $(echo "$out" | grep VIOLATION | sed 's/.*replays\/[^/]*\///; s/\.json.*//' | tr '\n' ' ')"
   python3 - <<PY
